@@ -104,7 +104,8 @@ Print Assumptions C17_wiring.
 (* ---- tie to the source: the eight recording operations of AggregatedStats (src/stats/aggregated.rs)
    as translated on this run: any event sequence through the translated add_* methods leaves the
    counters the model's aggregated recorder has ---- *)
-Require RV.Model.GenSupport RV.Gen.Code RV.Proofs.CodeStats RV.Proofs.CodePerClient RV.Proofs.CodeReporter RV.Proofs.CodeTotals.
+Require RV.Model.GenSupport RV.Gen.Code RV.Proofs.CodeStats RV.Proofs.CodePerClient RV.Proofs.CodeReporter RV.Proofs.CodeTotals RV.Proofs.CodeServerNew RV.Model.ConfigLoad.
+From Coq Require Import ZArith.
 Theorem C17_translated_aggregated_is_model :
   forall evs c, RV.Proofs.CodeStats.gen_agg_run c evs = Ok (fold_left agg_step evs c).
 Proof. exact RV.Proofs.CodeStats.gen_agg_run_model. Qed.
@@ -240,6 +241,18 @@ Theorem C17_reporter_stops_at_the_first_cleared_flag :
   exists q' m' reps', RV.Proofs.CodeReporter.reporter pushed flag due fuel q m i reps = Ok (q', m', (i + n)%nat, reps').
 Proof. exact RV.Proofs.CodeReporter.reporter_stops_at_flag. Qed.
 Print Assumptions C17_reporter_stops_at_the_first_cleared_flag.
+
+(* Server::new AS TRANSLATED (two of its statements): a worker records per client exactly when client_stats is on
+   (the aggregated counters otherwise), and publishes every tenth of the status interval *)
+Theorem C17_translated_recorder_choice :
+  forall c, RV.Gen.Code.gen_server_new_recorder c = Ok (RV.Model.ConfigLoad.lc_cstats c).
+Proof. exact RV.Proofs.CodeServerNew.gen_server_new_recorder_model. Qed.
+Print Assumptions C17_translated_recorder_choice.
+
+Theorem C17_translated_publication_period :
+  forall c, RV.Gen.Code.gen_server_new_stats_freq c = Ok (Z.to_N (RV.Model.ConfigLoad.lc_status c) * 1000000000 / 10)%N.
+Proof. exact RV.Proofs.CodeServerNew.gen_server_new_stats_freq_model. Qed.
+Print Assumptions C17_translated_publication_period.
 
 (* ---- tie to the source: the integer literals of the functions this property's model stands for
    (private constants, bounds, unit factors; the files are SiteMap.files_C17) are today the ones the
